@@ -587,7 +587,8 @@ def run_inverse(ctx: Ctx) -> None:
         ctx.fn(f)
     ctx.rule("T67.inverse", "for every invertible linear model and predefined composite with symbolic parameters (Parameter with its squashing "
                             "re-parameterisation, or buffer), and for inverse(link, update_buffers) in all four modes and the .inv shortcut: "
-                            "the inverse's matrix composed with the transform's (both orders) is the identity as a polynomial identity; the "
+                            "the inverse's matrix composed with the transform's (both orders) is the identity as a polynomial identity, inv(t(x)) = x and t(inv(x)) = x "
+                            "evaluated one after the other, and neither matrix changes when the inverse is evaluated once or twice; the "
                             "inverse is a new object and the transform is unchanged; inverse().inverse() equals the transform; after a "
                             "subsequent parameter change of the transform (data_(new) for Parameter or linked inverses, in-place write for "
                             "unlinked buffer tensors, which share the tensor) followed by update() the inverse taken before still inverts it")
@@ -626,10 +627,24 @@ def run_inverse(ctx: Ctx) -> None:
                         I = identity_h(D)
                         if not teq(compose(Mi, M), I) or not teq(compose(M, Mi), I):
                             return False, f"{name} ({kind}): inverse matrix composed with the matrix is not the identity: {tstr(compose(Mi, M))[:160]}"
+                        # one evaluation of the inverse leaves the transform, and a second evaluation of the inverse, as they were (the
+                        # two share their parameter tensor; an even number of in-place slips would cancel, so look after each single one)
+                        if not teq(as_h(it.method(t, "tensor")[0]), M):
+                            return False, f"{name} ({kind}): evaluating the inverse once changed the matrix of the transform (shared parameters modified)"
+                        if not teq(as_h(it.method(inv, "tensor")[0]), Mi):
+                            return False, f"{name} ({kind}): evaluating the inverse a second time gives another matrix (shared parameters modified)"
+                        if not teq(as_h(it.method(t, "tensor")[0]), M):
+                            return False, f"{name} ({kind}): evaluating the inverse twice changed the matrix of the transform (shared parameters modified)"
                         x = STensor.symbols("x", [1, 2, D])
                         y = it.call_value(inv, [it.call_value(t, [x], {})], {})
                         if not teq(y, x):
                             return False, f"{name} ({kind}): inverse(t(x)) != x"
+                        y = it.call_value(t, [it.call_value(inv, [x], {})], {})
+                        if not teq(y, x):
+                            return False, f"{name} ({kind}): t(inverse(x)) != x"
+                        y = it.call_value(inv, [it.call_value(t, [x], {})], {})
+                        if not teq(y, x):
+                            return False, f"{name} ({kind}): inverse(t(x)) != x when evaluated after t(inverse(x))"
                         if not teq(as_h(it.method(t, "tensor")[0]), M):
                             return False, "taking the inverse changed the transform"
                         back = it.method(inv, "inverse")
